@@ -9,6 +9,8 @@
 -/
 import GoblVerif.Proofs.TaxTotalsSrc
 import GoblVerif.Proofs.CalcGroups
+import Mathlib.Data.Countable.Basic
+import Mathlib.Logic.Equiv.List
 
 namespace GoblVerif.Proofs.TaxTotalsSrc
 open GoblVerif GoblVerif.Merge GoblVerif.TaxTotals GoblVerif.Generated GoblVerif.GoSem
@@ -194,6 +196,16 @@ theorem findRow_locCats (c : TaxTotals.Combo) (zero : Amount) (cats : List Categ
     · simp [locCats, h, ih]
 
 end
+
+/-! ## an injective encoding of extension maps exists (non-vacuity of `henc`) -/
+
+theorem exists_enc : ∃ enc : List (String × String) → String, ∀ a b, enc a = enc b → a = b := by
+  haveI : Countable Char := (show Function.Injective Char.toNat from fun _ _ h => Char.toNat_inj.mp h).countable
+  haveI : Countable String := (show Function.Injective String.toList from fun _ _ h => String.toList_inj.mp h).countable
+  obtain ⟨f, hf⟩ := exists_injective_nat (List (String × String))
+  refine ⟨fun l => String.ofList (List.replicate (f l) 'a'), fun a b h => hf ?_⟩
+  have := congrArg String.length h
+  simpa using this
 
 /-! ## the loop of `calculateBaseRateTotals` around the regenerated `rateTotalFor` -/
 
